@@ -625,7 +625,18 @@ fn check_traj(ctx: &mut Ctx, sub: &str, c: &TrajCase) -> R {
             continue;
         }
         // Not the k-th iterate. Is it an earlier iterate (early stop)?
-        let s = (0..k).find(|&s| bits_eq(&ls[s], &l));
+        // The value may have been returned for several earlier budgets already (a step that left the parameters
+        // unchanged): the stop is legitimate if at ANY of them the reference step into that iterate had stopped changing
+        // the parameters — e.g. heavy-ball momentum whose velocity cancels the gradient step exactly for one step. That the
+        // recurrence would move again later does not matter: the statement allows stopping "once the parameters have
+        // stopped changing", and that is what the library observed. (Found as a false alarm by a thorough run on the
+        // unchanged tree: SGD(0.5, momentum 0.5) on ½x² − ¼x from 0 has x_3 = x_4 = 0.3125 and x_5 = 0.28125.)
+        let cands: Vec<usize> = (0..k).filter(|&s| bits_eq(&ls[s], &l)).collect();
+        let legit = |s: usize| {
+            let s1 = s.max(1);
+            stopped(&xs[s1 - 1], &xs[s1]) <= 1.0 && dist2(&l, &xs[s1]) <= TOL * (1.0 + norm2(&xs[s1]))
+        };
+        let s = cands.iter().copied().find(|&s| legit(s)).or_else(|| cands.first().copied());
         match s {
             Some(s) => {
                 let s1 = s.max(1);
